@@ -143,16 +143,19 @@ PLANS["C16"] = {
 for pid in ("C01", "C02", "C05", "C06"):
     for tier in ("quick", "thorough"):
         PLANS[pid][tier].append({"type": "tlc-replay", "module": "MCCodec", "cfg": "MCCodec_sweep.cfg"})
-for pid in ("C03", "C15", "C14", "C20"):
+for pid in ("C03", "C15", "C14", "C20", "C05"):
     for tier in ("quick", "thorough"):
         PLANS[pid][tier].append({"type": "tlc-replay", "module": "MCEmplace", "cfg": "MCEmplace_sweep.cfg"})
+PLANS["C05"]["quick"].append({"type": "tlc-replay", "module": "MCEmplace", "cfg": "MCEmplace_quick.cfg"})
+PLANS["C05"]["thorough"].append({"type": "tlc-replay", "module": "MCEmplace", "cfg": "MCEmplace_thorough.cfg"})
+PLANS["C05"]["rule"] += "; plus every accepted emplacement of MCEmplace (constructed values): size() inside the slice and sufficient"
 
 # ---- impl -> spec: seeded drivers + TLC trace validation (spec/TraceFlat.tla) -------------------------
-VEC_T = ["V_u8_u8", "V_u8_u16", "V_u8_u32", "V_u32_u8", "V_u64_u32", "V_u128_u8", "V_bool_u8", "V_ss3_u16", "V_i32_u16", "V_lei32_leu16", "V_u16_beu32", "V_ss5_u16", "V_se1_u8",
+VEC_T = ["V_u16_u64", "S_u64", "V_u8_u8", "V_u8_u16", "V_u8_u32", "V_u32_u8", "V_u64_u32", "V_u128_u8", "V_bool_u8", "V_ss3_u16", "V_i32_u16", "V_lei32_leu16", "V_u16_beu32", "V_ss5_u16", "V_se1_u8",
          "S_u8", "S_u16", "S_u32", "S_leu16", "US1", "US2", "US3", "US6", "US7", "US8", "US9", "US10"]
-FLEX_T = ["X_u8_u8", "X_u32_u8", "X_bool_u16", "X_vu8_u8", "X_vi32_u16", "X_s8_u16", "X_vu8le_le", "X_x_u8", "X_us2_u16", "X_ue1_u8", "US4", "UE8"]
+FLEX_T = ["X_u8_u64", "X_u8_u8", "X_u32_u8", "X_bool_u16", "X_vu8_u8", "X_vi32_u16", "X_s8_u16", "X_vu8le_le", "X_x_u8", "X_us2_u16", "X_ue1_u8", "US4", "UE8"]
 # (UE14 is left to the exhaustive model: it exhibits known finding #18, and a trace is judged only up to its first rejected event)
-COMP_T = ["US1", "US2", "US3", "US4", "US5", "US6", "US7", "US8", "US9", "US10", "UE1", "UE2", "UE3", "UE4", "UE5", "UE6", "UE7", "UE8", "UE9", "UE10", "UE11", "UE12", "UE13"]
+COMP_T = ["US1", "US2", "US3", "US4", "US5", "US6", "US7", "US8", "US9", "US10", "US11", "UE1", "UE2", "UE3", "UE4", "UE5", "UE6", "UE7", "UE8", "UE9", "UE10", "UE11", "UE12", "UE13", "UE15", "UE16", "PE1"]
 SIZED_T = ["bool", "arr_bool3", "SS1", "SS2", "SS3", "SS4", "SS5", "SS6", "SE1", "SE2", "SE3", "SE4", "SE5", "le_u16", "be_u32"]
 ALL_T = sorted(set(VEC_T + FLEX_T + COMP_T + SIZED_T))
 
@@ -164,8 +167,8 @@ TRACE_NOTE = "; plus the implementation -> specification direction: a seeded dri
 for pid, (drv, types, nq, nt) in {
     "C01": ("dec", ALL_T, 6000, 60000), "C02": ("dec", ALL_T, 6000, 60000), "C05": ("dec", ALL_T, 6000, 60000), "C06": ("dec", ALL_T, 6000, 60000),
     "C03": ("emp", ALL_T, 6000, 60000), "C15": ("emp", ALL_T, 6000, 60000), "C20": ("emp", ALL_T, 4000, 40000),
-    "C11": ("ops", VEC_T, 6000, 60000), "C12": ("ops", FLEX_T, 6000, 60000), "C13": ("ops", VEC_T + FLEX_T, 6000, 60000),
-    "C14": ("ops", ALL_T[:0] + VEC_T + FLEX_T + COMP_T, 6000, 60000), "C18": ("ops", COMP_T, 6000, 60000),
+    "C11": ("ops", VEC_T, 4000, 40000), "C12": ("ops", FLEX_T, 4000, 40000), "C13": ("ops", VEC_T + FLEX_T, 4000, 40000),
+    "C14": ("ops", ALL_T[:0] + VEC_T + FLEX_T + COMP_T, 4000, 40000), "C18": ("ops", COMP_T, 3000, 30000),
 }.items():
     q, t = trace(drv, types, nq, nt)
     PLANS[pid]["quick"].append(q)
@@ -173,6 +176,13 @@ for pid, (drv, types, nq, nt) in {
     PLANS[pid]["rule"] += TRACE_NOTE
     PLANS[pid]["technique"] = TECH + "; TLC trace validation of recorded executions"
     PLANS[pid]["must_exercise"].append("trace.%s.events" % drv)
+
+# portable scalars, implementation -> specification: values of the full 16/32/64-bit range, judged by the digit arithmetic
+PLANS["C16"]["quick"].append({"type": "trace", "driver": "pscalar", "types": ["-"], "n": 20000, "module": "TracePortable"})
+PLANS["C16"]["thorough"].append({"type": "trace", "driver": "pscalar", "types": ["-"], "n": 400000, "module": "TracePortable"})
+PLANS["C16"]["rule"] += "; plus the implementation -> specification direction: a seeded driver draws operands of the full width for every integer type, records stored image, comparison, add/sub/neg and the conversions, and TLC accepts the trace iff every result is the one the digit arithmetic gives (spec/TracePortable.tla)"
+PLANS["C16"]["technique"] = TECH + "; TLC trace validation of recorded executions"
+PLANS["C16"]["must_exercise"].append("trace.pscalar.events")
 
 # ---- IO ------------------------------------------------------------------------------------------------
 IO_BASE = """CONSTANTS
@@ -190,7 +200,7 @@ def io_recv_cfg(msg, nmsgs, chunk, faults, policy, record, arbitrary=False, rawl
     txt = "SPECIFICATION %s\n" % ("SpecP" if record else "Spec") + IO_BASE + """  MsgId = "%s"
   NMsgs = %d
   RawLen = %d
-  RawAlphabet = {0, 1, 2, 255}
+  RawAlphabet = {0, 1, 2, 3, 4, 255}
   Arbitrary = %s
   MsgT <- MT
   Streams <- MCStreams
@@ -273,7 +283,8 @@ PLANS.update({
                    + [io_recv_cfg(m, n, c, 0, "code", True) for m, n, c in [("UE6", 3, 24), ("US2", 2, 16), ("V_u8_u32", 2, 16), ("X_vu8_u8", 2, 8)]]
                    + [io_recv_cfg("UE6", 3, 12, 0, "code", True, cap=c) for c in (0, 4, 12)]      # capacities down to the largest message
                    + [io_recv_cfg("US2", 3, 12, 0, "code", True, cap=0)]
-                   + [io_send_cfg(m, 3, 12, 0, 0, True) for m in ["UE6", "US2", "X_vu8_u8"]],
+                   + [io_recv_cfg(m, 2, 16, 0, "code", True) for m in ("UE11", "UE10", "UE2")]       # variants with odd payloads / interior padding
+                   + [io_send_cfg(m, 3, 12, 0, 0, True) for m in ["UE6", "US2", "X_vu8_u8", "UE11"]],
                    [io_recv_cfg("UE6", 3, 24, 0, "any", False, live=True), io_send_cfg("UE6", 3, 12, 0, 0, False, live=True)]
                    + [io_recv_cfg(m, n, c, 0, "code", True) for m, n, c in [("UE6", 4, 24), ("US2", 3, 16), ("US1", 2, 48), ("V_u8_u32", 3, 16), ("X_vu8_u8", 3, 8), ("UE1", 3, 16), ("SS1", 2, 48)]]
                    + [io_send_cfg(m, 3, 16, 0, 0, True) for m in ["UE6", "US2", "US1", "X_vu8_u8", "UE1", "V_u8_u32"]]),
@@ -307,7 +318,7 @@ PLANS.update({
                    + [io_recv_cfg(m, 3, 12, 0, "code", True, cap=c) for m in ("UE6", "US2", "V_u8_u32") for c in (0, 4, 8)]),
     "C10": io_plan(IO_TEXT, "receiver model fed arbitrary streams: all strings over {0,1,2,255} up to RawLen, a valid stream with one byte replaced (first 12 positions x 3 values), a valid stream truncated at every position; every chunking; non-trivial = all",
                    ["iorecv.arbitrary.*"],
-                   [io_recv_cfg(m, 2, 4, 0, "code", True, arbitrary=True, rawlen=r) for m, r in [("UE6", 4), ("X_vu8_u8", 4), ("US2", 3), ("V_u8_u16", 3)]],
+                   [io_recv_cfg(m, 2, 4, 0, "code", True, arbitrary=True, rawlen=r) for m, r in [("UE6", 4), ("X_vu8_u8", 4), ("US2", 3), ("V_u8_u16", 3), ("UE11", 3), ("UE2", 3)]],
                    [io_recv_cfg(m, 2, 6, 0, "code", True, arbitrary=True, rawlen=r) for m, r in [("UE6", 5), ("X_vu8_u8", 5), ("US2", 4), ("UE1", 4), ("X_s8_u16", 4)]]),
 })
 
